@@ -24,30 +24,6 @@ func cacheAdd(c *mocrelay.EventCache, e *mocrelay.Event) any {
 	return M{"op": "add", "e": evJ(e), "out": M{"added": added, "len": c.Len(), "all": evsJ(all), "panic": p != "", "state": cacheStateJ(c)}}
 }
 
-func strsNN(l []string) []string { return append([]string{}, l...) }
-
-// the implementation's internal tables (hook EventCache.VerifState), compared with the concrete model's
-func cacheStateJ(c *mocrelay.EventCache) any {
-	st := c.VerifState()
-	evs := []any{}
-	for _, e := range st.Evs {
-		evs = append(evs, []any{e[0], e[1]})
-	}
-	tree := []any{}
-	for _, e := range st.Tree {
-		tree = append(tree, []any{e[0], e[1], e[2]})
-	}
-	index := []any{}
-	for _, e := range st.Index {
-		index = append(index, M{"w": e.What, "v": strsNN(e.Value), "ids": strsNN(e.IDs)})
-	}
-	deleted := []any{}
-	for _, e := range st.Deleted {
-		deleted = append(deleted, M{"key": e.EventKey, "pubkey": e.Pubkey, "ids": strsNN(e.IDs)})
-	}
-	return M{"evs": evs, "tree": tree, "index": index, "deleted": deleted}
-}
-
 func cacheFind(c *mocrelay.EventCache, fs []*mocrelay.ReqFilter) any {
 	var res []*mocrelay.Event
 	p := recoverStr(func() { res = c.Find(fs) })
@@ -102,9 +78,15 @@ func cacheGenHistory(r *Rng, g *EvGen, steps int, findsPerStep int) {
 	g.made = nil
 	var offered []*mocrelay.Event
 	var shown []*mocrelay.Event
+	var script []*mocrelay.Event // a scripted scenario in progress (rare interactions the random mix seldom lines up)
 	for i := 0; i < steps; i++ {
 		var e *mocrelay.Event
+		if len(script) == 0 && r.P(4) {
+			script = g.deletionChain()
+		}
 		switch {
+		case len(script) > 0:
+			e, script = script[0], script[1:]
 		case len(offered) > 0 && r.P(12):
 			e = cloneEv(pick(r, offered)) // the same event again (duplicate / re-insert after deletion or eviction)
 		case len(offered) > 0 && r.P(25):
